@@ -714,10 +714,10 @@ def acmd_hole_defs(seed):
 def adj_family(seed, n, maxlen=5, budget=8000):
     rnd = random.Random(seed)
     out = []
-    wraps = ["one", "opt", "many"]
+    wraps = ["one", "opt", "many", "count", "some"]
     while len(out) < n:
         shape = len(out) % 3
-        wrap = wraps[(len(out) // 3) % 3]
+        wrap = wraps[(len(out) // 3) % 5]
         if shape == 0:
             g = adjf("g0", wrap, rf("h0", "one", "--point"), posm("x", rnd.choice(["int", "str"])), posm("y", "str"))
         elif shape == 1:
@@ -866,6 +866,7 @@ def acmd_alt_family(seed, n, maxlen=4, budget=6000):
         picks = [pool[(i + j) % 4]() for j in range(2 + i % 2)]
         for g in picks:
             g["joined"] = "J"
+            g["arity"] = "some" if i % 3 == 1 else "many"
         others = [sw("o1", "-v")] if i % 3 == 0 else []
         d = mkdef(f"acmdalt{seed}_{i}", level(others + picks, NOTAIL), maxlen=maxlen, extras=rnd.choice([("unk",), ("help",), ()]),
                   spells=("sep",), words=("1",))
@@ -976,7 +977,7 @@ def group_family(seed, maxlen=4, budget=8000):
     """optional / repeated / plain groups of two items (a choice with a single branch): deterministic coverage"""
     out = []
     for p in range(4, len(BRANCH_POOL)):
-        for wrap in ("one", "opt", "many", "some"):
+        for wrap in ("one", "opt", "many", "some", "count"):
             g = altf("g0", wrap, BRANCH_POOL[p](0))
             others = [sw("o1", "-v")] if (p + len(out)) % 2 else []
             tail = postail(pos("p0", "opt")) if len(out) % 3 == 0 else NOTAIL
